@@ -415,13 +415,15 @@ def pure(case, ctx):
 # ---------------------------------------------------------------------------
 hist_case = st.fixed_dictionaries({"op": st.sampled_from(["sm2_sign_ctx", "sm2_sign_ctx", "sm2_encrypt_ctx", "sm2_sign", "sm2_encrypt", "tls_cbc_encrypt", "sm9_sign", "sm9_encrypt"]),
                                    "seed": st.integers(0, 1 << 20), "stream": st.integers(1, 1 << 40), "reps": st.integers(40, 200),
+                                   # signing context: which finish call ends each repetition (variable-length, fixed-length, or both in turn)
+                                   "fix": st.sampled_from(["never", "never", "always", "mixed", "mixed"]),
                                    # entropy faults inside the history: (operation index, draw offset within that operation)
                                    # biased to the refill points of the pre-computed nonce pools (32 signatures, 8 encryptions)
                                    "faults": st.lists(st.tuples(st.one_of(st.sampled_from([7, 8, 9, 15, 16, 31, 32, 33, 63, 64, 65, 96]), st.integers(0, 199)),
                                                                 st.integers(0, 40)), max_size=3)})
 
 
-@P.sub("history", hist_case, quick=48, thorough=400, chunk=3)
+@P.sub("history", hist_case, quick=64, thorough=600, chunk=4)
 def history(case, ctx):
     """many repetitions on one entropy stream (one context where there is one): no nonce-derived value repeats"""
     l = lib(ctx.variant)
@@ -455,12 +457,21 @@ def history(case, ctx):
                 out = Buf(72, fill=0); ol = ctypes.c_size_t(0)
                 before = sh.draws()
                 armed = arm(i)
-                r = l.sm2_sign_finish(c, out, ctypes.byref(ol))
+                fx = case.get("fix", "never")
+                fixed = fx == "always" or (fx == "mixed" and (seed + i * 7) % 3 != 0)
+                if fixed:
+                    ol.value = (71, 71, 70, 72, 71)[(seed + i) % 5]
+                    r = l.sm2_sign_finish_fixlen(c, ol.value, out)
+                else:
+                    r = l.sm2_sign_finish(c, out, ctypes.byref(ol))
                 hit = armed and sh.draws() > before + faults[i]      # the armed draw was really requested
                 sh.fail_at(-1)
                 if hit:
                     failed_ops += 1
-                    ctx.check(r != 1, "sm2_sign_finish succeeded although an entropy draw failed (repetition %d)" % i, "hist/fail-open/" + op)
+                    ctx.check(r != 1, "sm2_sign_finish%s succeeded although an entropy draw failed (repetition %d)" % ("_fixlen" if fixed else "", i), "hist/fail-open/" + op)
+                    continue
+                if fixed and r != 1:
+                    ctx.note("fixlen-gave-up")     # 200 tries without a signature of the requested length: a documented outcome
                     continue
                 ctx.check(r == 1, "sm2_sign_finish failed in repetition %d" % i, "hist/ret")
                 vals.append(D.parse_sig(out.raw(ol.value))[0])      # r = e + x1: same e, so equal r means equal nonce
@@ -507,7 +518,7 @@ def history(case, ctx):
     finally:
         sh.reset()
     ctx.note("operations-hit-by-an-entropy-fault", failed_ops)
-    ctx.case(nontrivial=True, classes=[op, "with-faults" if failed_ops else "fault-free"], ident=["hist", op, seed, case["stream"], reps, sorted(faults.items())], n=reps, sample=case)
+    ctx.case(nontrivial=True, classes=[op, "with-faults" if failed_ops else "fault-free"] + (["finish:" + case.get("fix", "never")] if op == "sm2_sign_ctx" else []), ident=["hist", op, seed, case["stream"], reps, sorted(faults.items()), case.get("fix")], n=reps, sample=case)
     ctx.check(len(set(map(repr, vals))) == len(vals), "%s: a nonce-derived value repeated within %d operations on one entropy stream (%d of them hit by an entropy fault and correctly failed)" % (op, reps, failed_ops),
               "hist/repeat/" + op + ("/after-fault" if failed_ops else ""))
 
